@@ -695,3 +695,30 @@ def rule_options_forwarded(check, rule):
             check.violation(rule, site_of(fi, c), '%s does not hand its **%s on to %s: the spelling options are silently ignored' % (caller, kwarg, callee),
                             key=key, witness="s('a, *, b', use_modifiers_kwoargs=True) must be built with modifiers.kwoargs")
     check.floor(rule, 'option-forwarding helpers', n, 2)
+
+
+def rule_no_format_on_fstring(check, rule):
+    """C20.R13 (D45): the code generators interpolate names, defaults and annotations into source text with f-strings.  Text that is
+    already complete must not be run through `str.format` again: the braces of an interpolated value (a dict or set display written as
+    an annotation or default) are then read as replacement fields, and the generated source raises or means something else -- in one
+    spelling only, where the sibling spellings reproduce the value."""
+    import ast as _ast
+    from .index import norm as _norm
+    repo = check.repo
+    m = repo.module('support')
+    n = 0
+    for fi in m.funcs.values():
+        for x in _ast.walk(fi.node):
+            if isinstance(x, _ast.JoinedStr):
+                n += 1
+            if isinstance(x, _ast.Call) and isinstance(x.func, _ast.Attribute) and x.func.attr in ('format', 'format_map') \
+                    and isinstance(x.func.value, _ast.JoinedStr):
+                check.analysed(fi)
+                check.violation(rule, '%s %s' % (fi.loc(x), fi.key), '%s: str.format applied to an f-string -- the braces of the interpolated values are '
+                                'interpreted a second time' % _norm(x)[:70], key='format-on-fstring|%s' % fi.key,
+                                witness="support.s('a: {1: 2}', use_modifiers_annotate=True) raises; the native spelling reproduces the annotation")
+    for fi in m.funcs.values():
+        if any(isinstance(x, _ast.JoinedStr) for x in _ast.walk(fi.node)):
+            check.analysed(fi)
+            check.holds(rule, '%s %s' % (fi.loc(), fi.key), 'f-strings of %s are used as they are' % fi.name, key='format-on-fstring|%s|ok' % fi.key)
+    check.floor(rule, 'f-strings in support.py', n, 5)
